@@ -40,6 +40,7 @@ TraceNext ==
        [] e.a = "Process"   -> Process(e.n, e.msg, TRUE) /\ OutOk(e) /\ PostOk(e) /\ ~Has2(e, "panic")
        [] e.a = "Catchup"   -> Catchup(e.n, e.x, e.kvs, e.max, e.gc) /\ PostOk(e)
                                /\ (Has2(e, "panic") <=> (panic' /\ ~panic))
+       [] e.a = "FairEnd"   -> UNCHANGED vars /\ hist' = Append(hist, [a |-> "FairEnd", n |-> ""])
        [] OTHER -> FALSE
 
 TraceSpec == TraceInit /\ [][TraceNext]_tvars
